@@ -2,7 +2,7 @@
 import re
 
 from cxxtypes import Ty, parse_type
-from xtract import brk, addr, deref, Deref, Addr, BUILTIN_C, paren_lv
+from xtract import brk, addr, deref, Deref, Addr, Elem, NestedElem, BUILTIN_C, paren_lv
 
 
 class Model:
@@ -217,7 +217,16 @@ class VectorModel(ContainerModel):
             # element access as an array-index lvalue (bounds asserted by NAME_chk) rather than through a pointer-returning
             # function: cheaper for CBMC and keeps the points-to reasoning trivial
             if pure_expr(b) and pure_expr(A[0]):
-                return '%s.e[%s_chk(%s, %s)]' % (paren_lv(b), c, pb, A[0])
+                if '.e[' in b or '->e[' in b:
+                    # CBMC 6.11 loses track of pointers of the shape &outer.e[sym].e[k] (reads and writes through them become
+                    # arbitrary: spurious failures); forming the row address first is handled precisely
+                    ne = NestedElem('(%s)->e[%s_chk(%s, %s)]' % (pb, c, pb, A[0]))
+                    ne.row, ne.idx = pb, '%s_chk(%s, %s)' % (c, pb, A[0])
+                    ne.outer = b if isinstance(b, Elem) else None
+                    return ne
+                el = Elem('%s.e[%s_chk(%s, %s)]' % (paren_lv(b), c, pb, A[0]))
+                el.cont, el.cname, el.idx = pb, c, A[0]
+                return el
             return deref('%s_idx(%s, %s)' % (c, pb, A[0]))
         if name == 'reserve':
             return '((void)0)'
